@@ -410,7 +410,7 @@ End ShotProofs.
 
 Lemma c_render_keeps_id rq t w w' r : c_render rq t w = (w', Some r) -> rd_id r = cq_id rq.
 Proof.
-  unfold c_render. destruct (cq_tmpl rq); intros H; try discriminate; injection H as _ <-; reflexivity.
+  unfold c_render. destruct (cq_tmpl rq); try destruct (c_captured_tok t _); intros H; try discriminate; injection H as _ <-; reflexivity.
 Qed.
 
 Lemma c_shoot_order_stop_b src steps w :
